@@ -27,12 +27,16 @@ def main(argv):
             os.execv(sys.executable, [sys.executable, '-O', '-W', 'ignore', '-c', 'import sys; from pipesim.cli import main; sys.exit(main(sys.argv[1:]))'] + list(argv))
         return runner.replay(prop, argv[2])
     if argv[1] == '--opt-batch':
+        if argv[2] == 'thorough' and 'PIPESIM_OP_TIMEOUT' not in os.environ:
+            runner.OP_TIMEOUT = 600
         # internal: a slice of the run indices executed by an interpreter started with -O; prints one JSON line
         return runner.opt_batch(prop, argv[2], int(os.environ.get('VERIF_SEED', '20260926')), int(argv[3]), int(argv[4]), float(argv[5]))
     tier = argv[1]                       # the registered commands name their tier; VERIF_TIER is only a fallback
     if tier not in ('quick', 'thorough'):
         tier = os.environ.get('VERIF_TIER', 'quick')
     seed = int(os.environ.get('VERIF_SEED', '20260926'))
+    if tier == 'thorough' and 'PIPESIM_OP_TIMEOUT' not in os.environ:
+        runner.OP_TIMEOUT = 600          # thorough scenarios enumerate far more per run; the watchdog is there for hangs, not for load
     return runner.run_check(prop, tier, seed)
 
 
